@@ -26,6 +26,7 @@ ASSUMPTIONS = [
 TIERS = {"quick": {"runs": 1200}, "thorough": {"runs": 40000}}
 REQUIRED = ["reloads_checked", "reload_pickle", "reload_orbax", "reload_standard", "saves_of_different_states", "restart_partial", "restart_wrapped", "restart_exactly_full", "restart_mid_episode", "restart_nonuniform_priorities", "sample_after_restart", "update_after_restart"]
 REQUIRED_QUICK = REQUIRED
+CHUNK = 300
 SHRINK_LISTS = [["ops"]]
 SHRINK_INTS = [(["n_tasks"], 0), (["obs_dim"], 0), (["act_dim"], 0)]
 CLAUSES = ["twin", "len", "membership", "fields", "stale", "written", "task", "law", "update", "maxprio", "weights", "window", "trunc", "reduced"]
